@@ -245,11 +245,25 @@ structure Acct (s : State) : Prop where
   fee : s.totalClientFee = dsum remFee s.states s.proposals
   le : ∀ p, bal s.locked p ≤ bal s.escrow p
 
+/-- the closing record of a deal carries exact totals -/
+def ClosedOk (c : Closed) : Prop :=
+  match c.kind with
+  | .completed => c.paid = c.deal.fee ∧ c.feeRefund = 0 ∧ c.clientCollRefund = c.deal.clientColl ∧
+      c.providerCollRefund = c.deal.providerColl ∧ c.burnt = 0 ∧ c.deal.endE ≤ c.atEpoch
+  | .terminated =>
+      c.paid = c.deal.price * (max c.deal.startE (min c.deal.endE c.atEpoch) - c.deal.startE) ∧
+      c.feeRefund = c.deal.price * (c.deal.endE - max c.atEpoch c.deal.startE) ∧
+      c.paid + c.feeRefund = c.deal.fee ∧ c.clientCollRefund = c.deal.clientColl ∧
+      c.providerCollRefund = 0 ∧ c.burnt = c.deal.providerColl ∧ c.atEpoch < c.deal.endE
+  | .timedOut => c.paid = 0 ∧ c.feeRefund = c.deal.fee ∧ c.clientCollRefund = c.deal.clientColl ∧
+      c.providerCollRefund = 0 ∧ c.burnt = c.deal.providerColl ∧ c.deal.startE ≤ c.atEpoch
+
 /-- the ghost ledger of credits agrees with the closed form -/
 structure Ledg (s : State) : Prop where
   live : ∀ id d, alookup id s.proposals = some d →
     bal s.paid id = d.price * (luTo d (alookup id s.states) - d.startE)
   dead : ∀ id, alookup id s.proposals = none → bal s.paid id = 0
+  closed : ∀ id c, (id, c) ∈ s.closed → ClosedOk c
 
 structure Inv (s : State) : Prop where
   wf : WF s
